@@ -17,14 +17,45 @@ fn pa_from(v: usize, mut k: usize) -> Pa {
     r
 }
 
+thread_local! {
+    /// embedding of the explored variables into a larger store: (positions, size); None = identity
+    static EMB: std::cell::RefCell<Option<(Vec<usize>, usize)>> = const { std::cell::RefCell::new(None) };
+}
+
 fn terms(p: &[u8]) -> Vec<Term> {
-    p.iter()
-        .map(|x| match x {
-            0 => Term::BOT,
-            1 => Term::TOP,
-            _ => Term(7),
-        })
-        .collect()
+    let t = |x: &u8| match x {
+        0 => Term::BOT,
+        1 => Term::TOP,
+        _ => Term(7),
+    };
+    EMB.with(|e| match &*e.borrow() {
+        None => p.iter().map(t).collect(),
+        Some((pos, size)) => {
+            let mut v = vec![Term(7); *size];
+            for (i, x) in p.iter().enumerate() {
+                v[pos[i]] = t(x);
+            }
+            v
+        }
+    })
+}
+
+fn store_size(v: usize) -> usize {
+    EMB.with(|e| e.borrow().as_ref().map(|x| x.1).unwrap_or(v))
+}
+
+fn project(full: Vec<u8>, v: usize) -> Pa {
+    EMB.with(|e| match &*e.borrow() {
+        None => full,
+        Some((pos, _)) => {
+            // positions outside the embedding must have stayed open
+            let mut p: Pa = pos.iter().take(v).map(|i| full[*i]).collect();
+            if full.iter().enumerate().any(|(i, x)| *x != 2 && !pos.contains(&i)) {
+                p.push(9); // marks a literal outside the explored variables (never equal to an expected vector)
+            }
+            p
+        }
+    })
 }
 
 fn ng(p: &[u8]) -> NoGood {
@@ -34,10 +65,8 @@ fn ng(p: &[u8]) -> NoGood {
 /// reads a NoGood / Interpretation back through the public API
 fn read(n: &NoGood, v: usize) -> Pa {
     let mut upd = false;
-    let t = n.update_term_vec(&vec![Term(7); v], &mut upd);
-    t.iter()
-        .map(|t| if t.is_truth_value() { t.is_true() as u8 } else { 2 })
-        .collect()
+    let t = n.update_term_vec(&vec![Term(7); store_size(v)], &mut upd);
+    project(t.iter().map(|t| if t.is_truth_value() { t.is_true() as u8 } else { 2 }).collect(), v)
 }
 
 fn ext(p: &[u8], a: usize) -> bool {
@@ -66,7 +95,7 @@ pub struct St {
 pub fn case(v: usize, seq: &[(u8, Pa)], st: &mut St) -> Vec<(String, String)> {
     let mut out = vec![];
     let built = guard(|| {
-        let mut s = NoGoodStore::new(v as u32);
+        let mut s = NoGoodStore::new(store_size(v) as u32);
         for (m, p) in seq {
             s.set_dup_elem(mode(*m));
             s.add_ng(ng(p));
@@ -150,7 +179,7 @@ pub fn case(v: usize, seq: &[(u8, Pa)], st: &mut St) -> Vec<(String, String)> {
             Ok(Ok(res)) => {
                 let rp: Pa = match &res {
                     None => ip.clone(),
-                    Some(t) => t.iter().map(|t| if t.is_truth_value() { t.is_true() as u8 } else { 2 }).collect(),
+                    Some(t) => project(t.iter().map(|t| if t.is_truth_value() { t.is_true() as u8 } else { 2 }).collect(), v),
                 };
                 if matches_one {
                     out.push((
@@ -289,12 +318,105 @@ pub fn run_c18(run: &Run) {
         }
         run.sample(seq_json(v, &decode(v, len, mixed, total / 3)));
     }
+    // the same exploration embedded into larger stores: the three explored variables sit at positions that are
+    // congruent modulo 64, around 63/64/65 and around 65535/65536 (bitmap word and container boundaries)
+    let embeddings: Vec<(Vec<usize>, usize, usize, bool, u64)> = if run.quick() {
+        vec![(vec![3, 67, 131], 140, 2, true, 1), (vec![63, 64, 65], 70, 2, true, 1), (vec![65535, 65536, 65537], 65540, 2, true, 37)]
+    } else {
+        vec![(vec![3, 67, 131], 140, 3, false, 1), (vec![63, 64, 65], 70, 3, false, 1), (vec![65535, 65536, 65537], 65540, 2, true, 5), (vec![1, 65, 129, 193], 200, 2, true, 1)]
+    };
+    for (pos, size, len, mixed, stride) in embeddings {
+        let v = pos.len();
+        let nn = 3u64.pow(v as u32) - 1;
+        let all = if mixed { (nn * 3).pow(len as u32) } else { 3 * nn.pow(len as u32) };
+        let total = all / stride;
+        let name = format!("V={} embedded at positions {:?} of a store with {} variables: add sequences of length {}{}", v, pos, size, len, if stride > 1 { format!(" (every {}th)", stride) } else { String::new() });
+        let res = run.par_family(
+            &name,
+            total,
+            St::default,
+            |st, k| {
+                EMB.with(|e| *e.borrow_mut() = Some((pos.clone(), size)));
+                let seq = decode(v, len, mixed, k * stride + run.seed % stride);
+                let found = case(v, &seq, st);
+                EMB.with(|e| *e.borrow_mut() = None);
+                let mut seen = std::collections::BTreeSet::new();
+                for (kind, msg) in found {
+                    if seen.insert(kind.clone()) {
+                        let mut c = seq_json(v, &seq);
+                        c["positions"] = json!(pos);
+                        c["size"] = json!(size);
+                        run.violation(&kind, format!("{} after adds {:?} (variables at positions {:?})", msg, seq, pos), c);
+                    }
+                }
+            },
+            &|k| seq_json(v, &decode(v, len, mixed, k * stride)),
+        );
+        for st in res {
+            run.add_counts(st.stores, st.queries, st.queries, st.nontrivial);
+        }
+    }
+    // long histories: thousands of nogoods of one size on one store (12 variables, every second total assignment
+    // added, in all three modes); afterwards every total assignment is rejected iff it was added
+    {
+        let res = run.par_family(
+            "long histories: about 2600 (thorough: up to 4095) nogoods of one size on one store, all three modes, every total assignment queried",
+            if run.quick() { 3 } else { 9 },
+            St::default,
+            |st, k| {
+                let vv = 12usize;
+                let m = (k % 3) as u8;
+                let count = [2600usize, 3300, 4095][(k / 3) as usize % 3];
+                run.heartbeat();
+                let r = guard(|| {
+                    let mut s = NoGoodStore::new(vv as u32);
+                    s.set_dup_elem(mode(m));
+                    let added: Vec<usize> = (0..(1usize << vv)).filter(|a| (a * 2654435761usize >> 7) % 4096 < count).collect();
+                    for a in &added {
+                        let p: Pa = (0..vv).map(|i| (a >> i & 1) as u8).collect();
+                        s.add_ng(ng(&p));
+                    }
+                    let set: std::collections::BTreeSet<usize> = added.iter().copied().collect();
+                    let mut wrong = vec![];
+                    for a in 0..(1usize << vv) {
+                        let p: Pa = (0..vv).map(|i| (a >> i & 1) as u8).collect();
+                        let rejected = s.conclusions(&ng(&p)).is_none();
+                        if rejected != set.contains(&a) {
+                            wrong.push((a, rejected));
+                        }
+                    }
+                    (added.len(), wrong)
+                });
+                st.stores += 1;
+                st.queries += 4096;
+                match r {
+                    Err(msg) => run.violation("long:panic", msg, json!({"type": "ng_long", "mode": MODE_NAMES[m as usize], "count": count})),
+                    Ok((n_added, wrong)) => {
+                        if let Some((a, rej)) = wrong.first() {
+                            run.violation(
+                                if *rej { "long:spurious-conflict" } else { "long:missed-conflict" },
+                                format!("after {} adds of full-size nogoods over 12 variables (mode {}), {} total assignments are judged wrongly, e.g. {:#b} is {}", n_added, MODE_NAMES[m as usize], wrong.len(), a, if *rej { "rejected although it was never added" } else { "accepted although it was added" }),
+                                json!({"type": "ng_long", "mode": MODE_NAMES[m as usize], "count": count}),
+                            );
+                        }
+                    }
+                }
+            },
+            &|k| json!({"type": "ng_long", "index": k}),
+        );
+        for st in res {
+            run.add_counts(st.stores, st.queries, st.queries, st.stores);
+        }
+    }
     run.extra("states_are", json!("stores reached by an add sequence"));
     run.extra("transitions_are", json!("queries (conclusions / closure) judged against brute force, plus pairwise NoGood operations"));
 }
 
 pub fn replay(c: &Value) -> Vec<(String, String)> {
     let v = c["vars"].as_u64().unwrap_or(3) as usize;
+    if c["type"] == "ng_long" {
+        return vec![("long".into(), "long-history case: re-run the check (deterministic)".into())];
+    }
     if c["type"] == "ng_pair" {
         return vec![("nogood:pair".into(), "pairwise NoGood operation mismatch (see stored record); re-run the check".into())];
     }
@@ -311,5 +433,10 @@ pub fn replay(c: &Value) -> Vec<(String, String)> {
         })
         .unwrap_or_default();
     let mut st = St::default();
-    case(v, &seq, &mut st)
+    if let (Some(pos), Some(size)) = (c["positions"].as_array(), c["size"].as_u64()) {
+        EMB.with(|e| *e.borrow_mut() = Some((pos.iter().map(|x| x.as_u64().unwrap_or(0) as usize).collect(), size as usize)));
+    }
+    let r = case(v, &seq, &mut st);
+    EMB.with(|e| *e.borrow_mut() = None);
+    r
 }
